@@ -316,6 +316,10 @@ def range_around_float(x, i):
   # last i bits of the precision. So we shift the mantissa left by (52-i) bits, round down
   # (zeroing out remaining i bits), then shift back.
   m, e = math.frexp(x)
+  if e < -1021:
+    # Subnormal floats are spaced 2**-1074 apart whatever their value (their mantissa has fewer than
+    # 53 bits), so treat them as having the exponent of the smallest normal float.
+    m, e = math.ldexp(x, 1021), -1021
   mf = math.floor(math.ldexp(m, 53 - i))
   exp = e + i - 53
   return (math.ldexp(mf, exp), math.ldexp(mf + 1, exp))
